@@ -7,6 +7,9 @@ From EV Require Import Base.Bytes Base.Sha256 Gen.Tables Model.PsetMap Model.Pse
 Import ListNotations.
 Open Scope N_scope.
 
+(* Vec fields (FK_set) keep the order and multiplicity of the listing; BTreeMap fields are key-sorted *)
+Definition is_vec_field (f : bytes) : bool :=
+  existsb (fun fk => bytes_eqb f (fst fk) && match snd fk with FK_set => true | _ => false end) (pset_global_fields ++ pset_input_fields ++ pset_output_fields).
 Definition parse_entry (m : option pmap) (e : bytes) : option pmap :=
   match m with None => None | Some m =>
   match e with [] => Some m | _ =>
@@ -15,7 +18,9 @@ Definition parse_entry (m : option pmap) (e : bytes) : option pmap :=
       match hexarg rhs with None => None | Some v =>
       match split_on x40 lhs [] with
       | [f] => Some (set_unk m f (Some v))
-      | [f; k] => match hexarg k with Some k => Some (set_kyd m f (al_insert k v (kyd m f))) | None => None end
+      | [f; k] => match hexarg k with
+                  | Some k => Some (set_kyd m f (if is_vec_field f then kyd m f ++ [(k, v)] else al_insert k v (kyd m f)))
+                  | None => None end
       | _ => None end end
   | _ => None end end end.
 Definition parse_map (body : bytes) : option pmap := fold_left parse_entry (split_on x3b body []) (Some empty_map).
